@@ -77,6 +77,13 @@ def renditionStreamIsLeading : Bool := (E2E.clientStreamLiterals.getD 2 (true, "
 /-- that literal's `rendition:` is the loop variable -/
 def renditionStreamCarriesRendition : Bool := (E2E.clientStreamLiterals.getD 2 (true, "")).2 == "pl"
 
+/-- the stream downloader `run` creates for one rendition of the group (`none`: skipped, no URI) -/
+def renditionStream? (r : Rendition) : Option CStream :=
+  match rendOptStr E2E.clientRenditionSkipNilField r with
+  | none => none
+  | some u => some { isLeading := renditionStreamIsLeading, uri := u,
+                     rendition := if renditionStreamCarriesRendition then some r else none }
+
 def clientStreams (p : Multivariant) : Except Err (List CStream) :=
   match pickLeading p.variants with
   | none => .error .noSupportedVariant
@@ -88,11 +95,7 @@ def clientStreams (p : Multivariant) : Except Err (List CStream) :=
       match renditionsByGroup p.renditions group with
       | [] => .error .noGroup
       | rs =>
-        .ok (lead :: rs.filterMap fun r =>
-          match rendOptStr E2E.clientRenditionSkipNilField r with
-          | none => none
-          | some u => some { isLeading := renditionStreamIsLeading, uri := u,
-                             rendition := if renditionStreamCarriesRendition then some r else none })
+        .ok (lead :: rs.filterMap renditionStream?)
 
 /-! ## clientStreamProcessorFMP4.run: the `Track` literal -/
 
